@@ -38,6 +38,7 @@ func fnDiscard(ctx *cmdContext, args map[string]any) (output respValue, err erro
 	// clear out watch map and discard multi command queue
 	ctx.cs.watches = map[watchKey]uint64{}
 	ctx.cs.cmdQueue = nil
+	ctx.cs.queueError = false
 	output.data = rstrOK
 	return
 }
@@ -55,6 +56,15 @@ func isAbortedExecUnlocked(cs *clientState) bool {
 func fnExec(ctx *cmdContext, args map[string]any) (output respValue, err error) {
 	if ctx.cs.cmdQueue == nil {
 		output.data = respErrorString("ERR EXEC without MULTI")
+		return
+	}
+
+	if ctx.cs.queueError {
+		// a command was rejected while queueing: execute nothing
+		ctx.cs.watches = map[watchKey]uint64{}
+		ctx.cs.cmdQueue = nil
+		ctx.cs.queueError = false
+		output.data = respErrorString("EXECABORT Transaction discarded because of previous errors.")
 		return
 	}
 
